@@ -5,7 +5,8 @@ against RefSdoServer's block download, which picks a new block size for every
 sub-block, negotiates CRC or not, ignores out-of-sequence segments and
 acknowledges the last in-order one (CiA 301), and aborts on a stalled sub-block.
 Faults: lost client segments (every single position), lost acknowledges,
-duplicated segments, delayed acknowledges.
+duplicated segments, delayed acknowledges, the end request lost on its way to
+the server, the server's end confirmation lost.
 """
 from canopen.sdo.exceptions import SdoError
 
